@@ -121,13 +121,14 @@ def run(n, npos, S, maps, deleg, lazy, nokw, layers, order, has_receiver, kwmode
         receiver = utils.NO_VALUE
         args = tuple(Probe(k, log) for k in range(npos))
     kwargs = {}
-    if kwmode and len(args) > 1:
+    if kwmode and len(args) >= 1:
         kwargs = {'k1': args[-1]}
         args = args[:-1]
     try:
         out = runner.choose_overload('f', levels, None, receiver, None, args, kwargs)()
     except (exceptions.AmbiguousFunctionException, exceptions.AmbiguousMethodException,
-            exceptions.NoMatchingFunctionException, exceptions.NoMatchingMethodException) as e:
+            exceptions.NoMatchingFunctionException, exceptions.NoMatchingMethodException,
+            exceptions.ArgumentException) as e:
         out = type(e).__name__
     return out, log
 
@@ -153,7 +154,7 @@ def delegate_log(self, receiver, engine, context, args, kwargs):
 
 
 # ---------------------------------------------------------------- replay with REAL overloads
-def build_real(n, npos, S, maps, deleg, lazy, nokw, layers, order, has_receiver):
+def build_real(n, npos, S, maps, deleg, lazy, nokw, layers, order, has_receiver, kwmode=False):
     """returns (call, description): `call()` resolves and runs f through real contexts with an enumeration order
     controlled by a Context subclass whose get_functions returns an ordered list (the property's own device)."""
     import yaql
@@ -236,13 +237,20 @@ def build_real(n, npos, S, maps, deleg, lazy, nokw, layers, order, has_receiver)
         c = top.create_child_context()
         for p in range(npos):
             c['v%d' % p] = values[p]
-        if has_receiver:
-            text = '$v0.f(%s)' % ', '.join('$v%d' % p for p in range(1, npos))
-        else:
-            text = 'f(%s)' % ', '.join('$v%d' % p for p in range(npos))
+        first = 1 if has_receiver else 0
+        parts = ['$v%d' % p for p in range(first, npos)]
+        text = ('$v0.f(%s)' if has_receiver else 'f(%s)') % ', '.join(parts)
         try:
+            if kwmode and parts:
+                # the host-side call API with a real keyword argument: context(name, engine[, receiver])(*args, **kwargs)
+                pos = [values[p] for p in range(first, npos - 1)]
+                kw = {'p%d' % (npos - 1): values[npos - 1]}
+                if has_receiver:
+                    return c('f', engine, receiver=values[0])(*pos, **kw)
+                return c('f', engine)(*pos, **kw)
             return engine(text).evaluate(context=c)
         except (exceptions.AmbiguousFunctionException, exceptions.AmbiguousMethodException,
-                exceptions.NoMatchingFunctionException, exceptions.NoMatchingMethodException) as e:
+                exceptions.NoMatchingFunctionException, exceptions.NoMatchingMethodException,
+                exceptions.ArgumentException) as e:
             return type(e).__name__
     return call, desc
